@@ -106,6 +106,34 @@ def arm_parts(text, name):
     return prelude, clean(arm[j + 1:rt.matching(arm, j) - 1])
 
 
+def offset_parts(text, kind):
+    """the literal branch of `Command::Offset(relocation_type)` for one relocation kind: (bits, scaling) from the kind's arm, the shared tail"""
+    m = re.search(r"Command::Offset\(relocation_type\)\s*=>\s*\{", text)
+    if not m:
+        raise Untranslatable("arm Command::Offset not found")
+    i = m.end() - 1
+    arm = text[i + 1:rt.matching(text, i) - 1]
+    mm = re.search(r"match\s+relocation_type\s*\{", arm)
+    if not mm:
+        raise Untranslatable("Offset: no match on the relocation type")
+    j = mm.end() - 1
+    e = rt.matching(arm, j)
+    kinds = arm[j + 1:e - 1]
+    mk = re.search(r"Relocation::" + kind + r"\s*=>\s*\{\s*bits\s*=\s*(\d+);\s*scaling\s*=\s*(\d+);", kinds)
+    if not mk:
+        raise Untranslatable(f"Offset: arm Relocation::{kind} not found")
+    tail = arm[e:]
+    k = tail.find("let mut imm_encoder")
+    if k < 0 or not re.search(r"imm_encoder\.gather_fields\(commands,\s*0,\s*&mut\s+statics\)\s*;", tail):
+        raise Untranslatable("Offset: ImmediateEncoder / gather_fields call has changed")
+    prelude = re.sub(r"let\s+span\s*=\s*value\.span\(\)\s*;", "", tail[:k])
+    ms = re.search(r"Some\(static_value\)\s*=>\s*\{", tail)
+    if not ms:
+        raise Untranslatable("Offset: no literal branch")
+    q = ms.end() - 1
+    return int(mk.group(1)), int(mk.group(2)), prelude, clean(tail[q + 1:rt.matching(tail, q) - 1])
+
+
 def gather_parts(text):
     body = rt.fn_body(text, "gather_fields")
     out = {}
@@ -129,13 +157,19 @@ def gather_parts(text):
 
 
 def translate_group(text, helpers, chk, gather, cmd, fields, nwords):
-    name, args = cmd[0], [int(x) for x in cmd[1:]]
-    prelude, body = arm_parts(text, name)
+    name = cmd[0]
     s = RSSym(helpers, chk, True)
-    for p, a in zip(PARAMS[name], args):
-        s.env[p] = rx.Val(const(a, 8), TYPES["u8"])
+    if name == "Offset":
+        bits, scaling, prelude, body = offset_parts(text, cmd[1])
+        s.env["bits"] = rx.Val(const(bits, 8), TYPES["u8"])
+        s.env["scaling"] = rx.Val(const(scaling, 8), TYPES["u8"])
+    else:
+        args = [int(x) for x in cmd[1:]]
+        prelude, body = arm_parts(text, name)
+        for p, a in zip(PARAMS[name], args):
+            s.env[p] = rx.Val(const(a, 8), TYPES["u8"])
     if prelude.strip():
-        for st in rx.P(rx.tokenize("{" + prelude + "}")).block()[1]:
+        for st in rx.P(rx.tokenize("{" + prelude + " ; }")).block()[1]:
             s.exec_stmt(st)
     s.env["static_value"] = rx.Val(rx.var("v", 64), TYPES["i64"])
     s.exec_body(rx.P(rx.tokenize("{" + body + "}")).block())
@@ -149,7 +183,7 @@ def translate_group(text, helpers, chk, gather, cmd, fields, nwords):
             g.env[p] = rx.Val(const(a, 8), TYPES["u8"])
         g.env["v"] = rx.Val(rx.var("v", 64), TYPES["i64"])
         if pre.strip():
-            for st in rx.P(rx.tokenize("{" + pre + "}")).block()[1]:
+            for st in rx.P(rx.tokenize("{" + pre + " ; }")).block()[1]:
                 g.exec_stmt(st)
         val = g.coerce(g.run(rx.parse(expr)), TYPES["u32"])
         if val.ty[0] != 32:
@@ -177,7 +211,7 @@ def groups_of_table():
         nwords = 1 if t[0] in ("Single", "Compressed") else 2 if t[0] == "Double" else len(t[1])
         for idx, g in sorted(encgen.rv_groups(op["commands"], equiv, ranges).items()):
             cmd = g["cmd"]
-            if not isinstance(cmd, tuple) or cmd[0] not in PARAMS or not g["fields"]:
+            if not isinstance(cmd, tuple) or (cmd[0] not in PARAMS and cmd[0] != "Offset") or not g["fields"]:
                 continue
             fields = "[" + ", ".join(f"⟨{'true' if rd else 'false'}, {o}, {l}, {s}⟩" for (rd, o, l, s) in g["fields"]) + "]"
             key = (g["check"], fields, nwords)
